@@ -13,6 +13,9 @@ from .core import (esort, epack, eunpack, BOOL, FN, INT, NONE, NONEV, NUM, NUMTY
 from .exec import Outcome, PyObj, SuperVal, ViewVal, _short, exc_subclass
 
 NumOfStr = z3.Function("NumOfStr", z3.StringSort(), z3.IntSort(), z3.RealSort())
+IntOfStr = z3.Function("IntOfStr", z3.StringSort(), z3.IntSort())
+IntStrOK = z3.Function("IntStrOK", z3.StringSort(), z3.BoolSort())
+NumStrOK = z3.Function("NumStrOK", z3.StringSort(), z3.BoolSort())
 HashNum = z3.Function("HashNum", z3.RealSort(), z3.IntSort())
 HashCls = z3.Function("HashCls", z3.IntSort(), z3.IntSort())
 
@@ -166,6 +169,10 @@ def apply(ex, fv, args, kwargs, st, node):
             yield st, Val(NUM, to_real(a))  # A1: conversion between numeric types keeps the value
             return
         if isinstance(a.t, TStr):
+            tv = z3.simplify(fv.v)
+            if z3.is_int_value(tv) and tv.as_long() in (ops.NUMTYPE_IDS["int"], ops.NUMTYPE_IDS["float"]):
+                yield from builtin_call(ex, "int" if tv.as_long() == ops.NUMTYPE_IDS["int"] else "float", [a], {}, st, node)
+                return
             yield st, Val(NUM, NumOfStr(a.v, fv.v))
             return
         raise Unsupported(f"numeric type applied to {a.t}")
@@ -688,6 +695,18 @@ def builtin_call(ex, name, args, kwargs, st, node):
     if name == "enumerate":
         yield st, ViewVal("enumerate", None, args)
         return
+    if name in ("int", "float") and len(args) == 1 and isinstance(args[0], Val) and isinstance(args[0].t, TStr):
+        # int(text) / float(text): ValueError unless the text is a literal of that type; the value is named by an
+        # uninterpreted function of the text (IntOfStr / NumOfStr); every int literal is a float literal of the same value
+        sv_ = args[0].v
+        ok = (IntStrOK if name == "int" else NumStrOK)(sv_)
+        st.assume(z3.Implies(IntStrOK(sv_), z3.And(NumStrOK(sv_), NumOfStr(sv_, z3.IntVal(ops.NUMTYPE_IDS["float"])) == z3.ToReal(IntOfStr(sv_)))))
+        for st1 in ex.guard_exc(st, ok, "ValueError", node):
+            if name == "int":
+                yield st1, Val(INT, IntOfStr(sv_))
+            else:
+                yield st1, Val(NUM, NumOfStr(sv_, z3.IntVal(ops.NUMTYPE_IDS["float"])))
+        return
     if name == "int" and len(args) == 1 and is_numeric(args[0]):
         x = to_real(args[0])
         yield st, Val(INT, z3.If(x >= 0, z3.ToInt(x), -z3.ToInt(-x)))
@@ -1004,6 +1023,9 @@ def str_method(ex, s, name, args, kwargs, st, node):
         yield st, Val(STR, StrLower(s.v))
     elif name == "isidentifier":
         yield st, boolv(StrIsIdent(s.v))
+    elif name in ("isdigit", "isdecimal", "isnumeric", "isalpha", "isalnum", "isspace", "isupper", "islower") and not args:
+        # character-class predicates: uninterpreted (nothing is assumed about how they relate to int()/float())
+        yield st, boolv(z3.Function("Str_" + name, z3.StringSort(), z3.BoolSort())(s.v))
     elif name == "format" and args and all(isinstance(a, Val) and isinstance(a.t, TStr) for a in args) and not kwargs:
         yield st, Val(STR, str_format_fn(len(args))(s.v, *[a.v for a in args]))
     elif name == "format":
